@@ -53,7 +53,7 @@ def gen_tree(rng):
             continue  # empty directory
         for _ in range(rng.randint(1, 4)):
             n += 1
-            stem = rng.choice(["m", "file", "x", ""]) + (str(n) if rng.random() < 0.9 else "")
+            stem = rng.choice(["m", "file", "x", "", "src_", "lib", "skip", "a", "b"]) + (str(n) if rng.random() < 0.9 else "")  # some stems are also directory names
             name = stem + rng.choice(SUFFIX_POOL)
             if not name or name in (".", ".."):
                 continue
@@ -83,7 +83,7 @@ def gen_settings(rng, dirs, files):
         elif q < 0.5 and files:
             ex.append(rng.choice(sorted(files)))
         else:
-            ex.append(rng.choice(["**/skip", "skip/**", "*/b", "**/*.F90", "**/*.f90", "src/*", "**/b/**", "a", "*.f", "**/x.f90", "lib/**/*", "nonexistent/**", "./src", "src/"]))
+            ex.append(rng.choice(["**/skip", "skip/**", "*/b", "**/*.F90", "**/*.f90", "src/*", "**/b/**", "a", "*.f", "**/x.f90", "lib/**/*", "nonexistent/**", "./src", "src/", "s*/", "*/", "**/s*/", "l*/", "@ABS@/s*/", "@ABS@/*/", "@ABS@/src", "@ABS@/**/b/"]))
     if ex:
         s["excl_paths"] = ex
     if rng.random() < 0.35:
@@ -173,7 +173,14 @@ def run_case(ctx, i, rng):
                 os.makedirs(ws.path(d) if d else ws.root, exist_ok=True)
             for f, t in files.items():
                 ws.write(f, t)
+            settings = json.loads(json.dumps(settings).replace("@ABS@", ws.root))
             want = reference(ws.root, settings)
+            # the root may be handed over through a symbolic link (rootPath is a plain path, not a URI)
+            init_root = ws.root
+            if rng.random() < 0.12:
+                init_root = ws.root + "_link"
+                os.symlink(ws.root, init_root)
+                res.kind("root:via-symlink")
             args = []
             if channel == "cli":
                 args = cli_args(settings)
@@ -182,7 +189,9 @@ def run_case(ctx, i, rng):
             witness = {"dirs": sorted(dirs), "files": sorted(files), "settings": settings, "channel": channel}
             ctx.mark(witness)
             srv = H.Server(args, nthreads=2)
-            ev = srv.initialize(ws.root)
+            ev = srv.initialize(init_root)
+            if init_root != ws.root:
+                os.unlink(init_root)
             res.count("evaluations")
             res.kind("channel:" + channel)
             res.kind("source_dirs:" + ("absent" if "source_dirs" not in settings else "given"))
